@@ -7,13 +7,14 @@
     [min burst window] bytes); afterwards the peer closes ([mode] 0), stalls (1) or fails (2).
     [grow] is the reallocation policy of [BytesMut::reserve], only assumed to keep its promise
     ([grow_ok]: the new capacity is at least [len + additional]). *)
-From KV Require Import Bytes RustInt Http1Read Http1ReadProofs Http1ReadParseProofs Http1ReadLocalProofs Http1ReadLfProofs.
+From KV Require Import Bytes RustInt Http1Read Http1ReadOld Http1ReadProofs Http1ReadParseProofs Http1ReadLocalProofs Http1ReadLfProofs Http1ReadBodyProofs.
 Open Scope N_scope.
 
-(** parse (print g) = g.  [g] ranges over the request grammar [greq_ok]: a method token of at most
-    7 letters that starts like a known method, a non-empty target without SP/CR/LF, HTTP/1.0 or
+(** parse (print g) = g.  [g] ranges over the request grammar [greq_ok]: ANY method token of at most
+    7 bytes (GET, PURGE, get, ...), a non-empty target without SP/CR/LF, HTTP/1.0 or
     1.1, header lines [name ":" SP^k value CRLF] (any k, including 0) with token names that are
-    unique up to case and values of visible ASCII/SP not starting with SP.  [expect] is the
+    unique up to case and values that are field values of RFC 9110 (visible bytes, obs-text, SP and
+    HTAB inside, neither starting nor ending with SP/HTAB).  [expect] is the
     specification: method, path, query, version, header list, authority (the target is judged by
     the [http] crate's [Uri] parser, transcribed as [parse_uri]) and the first
     [min content-length limit] bytes of whatever follows the blank line.  For every schedule that
@@ -51,6 +52,48 @@ Theorem parse_print_head_lf : forall https dh (l0 : bool) (fl : list bool) (lb :
   parse_request https dh (print_head_e l0 fl lb g ++ extra) =
   Ok (mk_request (g_method g) path query (if g_v11 g then 11 else 10) (g_hmap g) auth extra).
 Proof. exact parse_request_print_e. Qed.
+
+(** The general header line of RFC 9110, [name ":" OWS value OWS (CRLF | LF)]: on top of the [hl_sp] spaces each
+    line [i] may carry any optional whitespace [d_pre] (spaces and tabs, in any mix) before its value and any
+    [d_post] after it, and end in a bare LF ([ds]: one decoration per line, [decos_ok]: whitespace only).  The request
+    read is the one printed WITHOUT any of it: every header value equals what the client sent "with or without optional
+    whitespace" ("Content-Length:<TAB>3<SP>" is the length 3).  [parse_print] and [parse_print_lf] are instances. *)
+Theorem parse_print_ows : forall grow mode https dh (max_len : nat) limit (l0 : bool) (ds : list deco) (lb : bool) (g : greq) rest (sched : list nat) e,
+  grow_ok grow -> sched_pos sched -> greq_ok g = true -> decos_ok ds (g_headers g) = true ->
+  (length (print_head_d l0 ds lb g) <= max_len)%nat ->
+  expect https dh limit g rest = Some e ->
+  (N.to_nat (N.min (body_length (g_method g) (g_hmap g)) limit) <= length rest)%nat ->
+  (length (print_head_d l0 ds lb g) + N.to_nat (N.min (body_length (g_method g) (g_hmap g)) limit) <= sum_sched sched)%nat ->
+  exists sv, serve grow mode https dh max_len limit (print_head_d l0 ds lb g ++ rest) sched = Ok sv /\ observed sv = Some e.
+Proof. exact parse_print_ows_lemma. Qed.
+
+Theorem parse_print_head_ows : forall https dh (l0 : bool) (ds : list deco) (lb : bool) (g : greq) extra host auth path query,
+  greq_ok g = true -> decos_ok ds (g_headers g) = true ->
+  g_host dh g = Some host -> parse_uri https host (g_target g) = Some (auth, path, query) ->
+  parse_request https dh (print_head_d l0 ds lb g ++ extra) =
+  Ok (mk_request (g_method g) path query (if g_v11 g then 11 else 10) (g_hmap g) auth extra).
+Proof. exact parse_request_print_d. Qed.
+
+(** Two spellings of the same request (whitespace, line ends), cut in two ways: the same request and body. *)
+Theorem ows_independent : forall grow1 grow2 mode1 mode2 https dh (max_len : nat) limit (l0 l0' : bool) (ds ds' : list deco) (lb lb' : bool) (g : greq) rest (sched1 sched2 : list nat),
+  grow_ok grow1 -> grow_ok grow2 -> sched_pos sched1 -> sched_pos sched2 ->
+  greq_ok g = true -> decos_ok ds (g_headers g) = true -> decos_ok ds' (g_headers g) = true ->
+  (length (print_head_d l0 ds lb g) <= max_len)%nat -> (length (print_head_d l0' ds' lb' g) <= max_len)%nat ->
+  expect https dh limit g rest <> None ->
+  (N.to_nat (N.min (body_length (g_method g) (g_hmap g)) limit) <= length rest)%nat ->
+  (length (print_head_d l0 ds lb g) + N.to_nat (N.min (body_length (g_method g) (g_hmap g)) limit) <= sum_sched sched1)%nat ->
+  (length (print_head_d l0' ds' lb' g) + N.to_nat (N.min (body_length (g_method g) (g_hmap g)) limit) <= sum_sched sched2)%nat ->
+  exists sv1 sv2,
+    serve grow1 mode1 https dh max_len limit (print_head_d l0 ds lb g ++ rest) sched1 = Ok sv1 /\
+    serve grow2 mode2 https dh max_len limit (print_head_d l0' ds' lb' g ++ rest) sched2 = Ok sv2 /\
+    observed sv1 = observed sv2 /\ observed sv1 <> None.
+Proof. exact ows_independent_lemma. Qed.
+
+(** Any method token of at most seven bytes followed by a space passes the early check of the head reader
+    ([utils::valid_method || valid_version]), whatever follows. *)
+Theorem method_token_starts : forall (m rest : bytes),
+  forallb tchar m = true -> (length m <= 7)%nat -> m <> [] -> valid_start (m ++ SP :: rest) = true.
+Proof. exact valid_start_token. Qed.
 
 (** Two arbitrary ways of cutting the same bytes into reads (and two growth functions, two end
     modes) give the same request and the same body. *)
@@ -123,6 +166,92 @@ Theorem body_any_schedule : forall grow mode early (cl limit : N) stream (sched 
   end.
 Proof. exact body_any_schedule. Qed.
 
+(** [Http1Body] as what a handler that matches on [Body::Http1] holds: an [AsyncRead].  [hb_reads mode b r ws] is the
+    sequence of [read(&mut buf[..w])] calls for the window sizes [ws] on the body state [b] over the connection [r]
+    (each call = one [poll_read]: early bytes first, then the connection), [hb_new early cl] the state
+    [Http1Body::new] creates.  For EVERY window sequence, stream, schedule (0-byte bursts included) and end mode: what is
+    handed out is a prefix of the declared body [firstn cl (early ++ stream)], so never a byte of the next request; the
+    connection has lost exactly that part of it which did not come with the head; [unread] counts what is still on it. *)
+Theorem body_read_capped : forall mode early (cl : nat) stream (sched ws : list nat) data b' r' e,
+  hb_reads mode (hb_new early cl) (mk_reader stream sched) ws = (data, b', r', e) ->
+  data = firstn (length data) (firstn cl (early ++ stream)) /\ (length data <= cl)%nat /\
+  rd_data r' = skipn (length data - length early) stream /\
+  hb_unread b' = (cl - length early - (length data - length early))%nat.
+Proof. exact body_read_capped_lemma. Qed.
+
+(** With at least [cl] reads of non-empty windows over a connection that delivers the body: exactly the
+    [content-length] bytes, then end of file for ever (the connection is not touched again). *)
+Theorem body_read_complete : forall mode early (cl : nat) stream (sched ws : list nat),
+  sched_pos sched -> Forall (fun w => (0 < w)%nat) ws -> (cl <= length ws)%nat ->
+  (cl <= length early + Nat.min (sum_sched sched) (length stream))%nat ->
+  exists b' r', hb_reads mode (hb_new early cl) (mk_reader stream sched) ws = (firstn cl (early ++ stream), b', r', None) /\
+                rd_data r' = skipn (cl - length early) stream /\ hb_unread b' = 0%nat /\
+                (forall w, hb_read mode b' r' w = Ok ([], b', r')).
+Proof. exact body_read_complete_lemma. Qed.
+
+(** After any reads whatsoever [drain] (what [handle_connection] calls after the response) takes exactly the rest of
+    the declared body from the connection: the next request starts at the next byte; a read after it gets nothing. *)
+Theorem body_drain_aligns : forall mode early (cl : nat) stream (sched ws : list nat) data b' r',
+  sched_pos sched -> Forall (fun w => (0 < w)%nat) ws ->
+  (cl <= length early + Nat.min (sum_sched sched) (length stream))%nat ->
+  hb_reads mode (hb_new early cl) (mk_reader stream sched) ws = (data, b', r', None) ->
+  exists b'' r'', hb_drain mode b' r' = Ok (b'', r'') /\ rd_data r'' = skipn (cl - length early) stream /\ hb_unread b'' = 0%nat /\
+                  (forall w, hb_read mode b'' r'' w = Ok ([], b'', r'')).
+Proof. exact body_drain_aligns_lemma. Qed.
+
+(** [read_to_bytes(limit)] after any reads through [AsyncRead] returns the rest of the declared body (up to [limit]),
+    not the body from its start and not a byte of what follows it. *)
+Theorem body_rest_exact : forall grow mode early (cl : nat) limit stream (sched ws : list nat) data b' r',
+  grow_ok grow -> sched_pos sched -> Forall (fun w => (0 < w)%nat) ws ->
+  (cl <= length early + Nat.min (sum_sched sched) (length stream))%nat ->
+  hb_reads mode (hb_new early cl) (mk_reader stream sched) ws = (data, b', r', None) ->
+  exists b'' r'', hb_read_to_bytes grow mode b' r' limit =
+     Ok (firstn (N.to_nat limit) (skipn (length data) (firstn cl (early ++ stream))), b'', r'').
+Proof. exact body_rest_exact_lemma. Qed.
+
+(** * What was false of the code before this round's repairs (Model/Http1ReadOld.v), each witness replayed on the
+      real code through the harness (known-findings.txt) *)
+
+(** "Content-Length: 3<SP>": the value kept the space, so the body length was 0 and "abc" was read as the next request *)
+Theorem ows_value_refuted : exists (h : hline) (d : deco) m e,
+  name_ok (hl_name h) = true /\ value_ok (hl_value h) = true /\ deco_ok d h = true /\
+  parse_headers_old (print_hlines_d [d] [h] ++ crlf) = Ok (m, e) /\
+  hm_get (lower (hl_name h)) m <> Some (hl_value h) /\
+  body_length (B "POST") m = 0 /\ body_length (B "POST") [(lower (hl_name h), hl_value h)] = 3.
+Proof.
+  exists (mk_hline (B "Content-Length") 1 (B "3")), (mk_deco [] [SP] false). eexists. eexists.
+  split; [reflexivity|]. split; [reflexivity|]. split; [reflexivity|]. split; [vm_compute; reflexivity|].
+  split; [vm_compute; discriminate|]. split; vm_compute; reflexivity.
+Qed.
+
+(** "PURGE /x HTTP/1.1": a method token outside the closed list ended in [Error::Syntax] before any parsing *)
+Theorem method_token_refuted : exists m rest,
+  forallb tchar m = true /\ (length m <= 7)%nat /\ m <> [] /\ valid_start_old (m ++ SP :: rest) = false.
+Proof.
+  exists (B "PURGE"), (B "/x HTTP/1.1"). split; [vm_compute; reflexivity|]. split; [vm_compute; repeat constructor|].
+  split; [vm_compute; discriminate|vm_compute; reflexivity].
+Qed.
+
+(** content-length 3, "abcGET /next" on the connection, one [read] with a window of 100: twelve bytes were handed out *)
+Theorem body_read_capped_refuted : exists mode early cl stream sched w got b' r',
+  hb_read_old mode (hb_new early cl) (mk_reader stream sched) w = Ok (got, b', r') /\ (cl < length got)%nat.
+Proof.
+  exists 0, [], 3%nat, (B "abcGET /next"), [100%nat], 100%nat. eexists. eexists. eexists.
+  split; [vm_compute; reflexivity|]. vm_compute. repeat constructor.
+Qed.
+
+(** content-length 5, "abcdeXYZ!" on the connection: [read] (window 3) gave "abc", then [read_to_bytes] started over
+    and returned "deXYZ": three bytes of the next request *)
+Theorem body_rest_refuted : exists mode early cl stream sched w got b' r' body r'',
+  hb_read_old mode (hb_new early cl) (mk_reader stream sched) w = Ok (got, b', r') /\
+  hb_read_to_bytes_old vec_grow mode b' r' 100 = Ok (body, r'') /\
+  got ++ body <> firstn cl (early ++ stream) /\ (cl < length (got ++ body))%nat.
+Proof.
+  exists 0, [], 5%nat, (B "abcdeXYZ!"), [100%nat], 3%nat. eexists. eexists. eexists. eexists. eexists.
+  split; [vm_compute; reflexivity|]. split; [vm_compute; reflexivity|]. split; [vm_compute; discriminate|].
+  vm_compute. repeat constructor.
+Qed.
+
 (** Non-vacuity *)
 Example vec_grow_keeps_promise : grow_ok vec_grow.
 Proof. exact vec_grow_ok. Qed.
@@ -193,3 +322,28 @@ Example body_short_ex :
   body_spec 2 (B "ab") 10 100 (B "cd") = Err E_IO /\
   read_to_bytes vec_grow 1 (B "ab") 10 100 (mk_reader (B "cd") [1; 1]%nat) = Err E_TIMEDOUT.
 Proof. vm_compute. repeat split; reflexivity. Qed.
+
+(** the general header line: tabs and spaces around the values, a bare LF, an extension method *)
+Definition ex_ows : greq :=
+  mk_greq (B "PURGE") (B "/p") true
+    [mk_hline (B "Host") 1 (B "ex.org"); mk_hline (B "Content-Length") 0 (B "5"); mk_hline (B "X-E") 0 []].
+Example parse_print_ows_ex :
+  let ds := [mk_deco [TAB] [SP; TAB] false; mk_deco [TAB; SP] [SP] true; mk_deco [SP; TAB] [] false] in
+  greq_ok ex_ows = true /\ decos_ok ds (g_headers ex_ows) = true /\
+  print_head_d false ds false ex_ows =
+    B "PURGE /p HTTP/1.1" ++ [13; 10] ++ B "Host: " ++ [9] ++ B "ex.org " ++ [9; 13; 10] ++
+    B "Content-Length:" ++ [9; 32] ++ B "5 " ++ [10] ++ B "X-E: " ++ [9; 13; 10; 13; 10] /\
+  option_map observed
+    (match serve vec_grow 0 false None 200%nat 65536 (print_head_d false ds false ex_ows ++ B "helloGET /next") [2; 60; 100]%nat
+     with Ok sv => Some sv | _ => None end) =
+  Some (expect false None 65536 ex_ows (B "helloGET /next")) /\
+  expect false None 65536 ex_ows (B "helloGET /next") =
+    Some (mk_expected (B "PURGE") (B "/p") None 11
+            [(B "host", B "ex.org"); (B "content-length", B "5"); (B "x-e", [])] (B "ex.org") (B "hello")).
+Proof. cbv zeta. repeat split; vm_compute; reflexivity. Qed.
+
+(** the body through [AsyncRead]: windows 2, 100, 100 over bursts 1, 1, 50 *)
+Example body_read_ex :
+  hb_reads 0 (hb_new (B "he") 5) (mk_reader (B "lloGET /next") [1; 1; 50]%nat) [2; 100; 100; 100; 100; 7]%nat =
+  (B "hello", mk_hbody (B "he") 5 5 0, mk_reader (B "GET /next") [49]%nat, None).
+Proof. vm_compute. reflexivity. Qed.
